@@ -1342,6 +1342,24 @@ class C20(Base):
                      "off": self.DEF["off"], "now": gen.NOW, "flags": flags, "file": infile, "file_style": "lf",
                      "mode": mode, "list_flag_both": False, "json": js}
                 yield self.mk_case(m, "cli-overlap")
+        # names with characters that mean something to a shell, to clap or to a config-file reader: a line of the config
+        # file and the value of a flag are names, whatever they look like
+        odd = ["#1234", "a,b", "a;b", "-x", "--list", "@t", "a=b", "*", "a\\", " lead", "trail ", "é,ü", "# c", "//x", "!x"]
+        lines3 = []
+        for nm in odd:
+            e = gen.El("rm", True)
+            e.name = nm
+            e.id = 1
+            lines3 += [sp2.open_tag(e), "code();", sp2.close_tag(e), "keep();"]
+        src3 = "\n".join(lines3) + "\n"
+        for k in range(len(odd)):
+            for via in ("flag", "file"):
+                for mode, js in [("clean", False), ("list_all", True)]:
+                    pick = [odd[k], odd[(k + 5) % len(odd)]]
+                    m = {"src": src3, "ds": self.DEF["ds"], "de": self.DEF["de"], "tl": self.DEF["tl"], "rm": self.DEF["rm"],
+                         "off": self.DEF["off"], "now": gen.NOW, "flags": pick if via == "flag" else [], "file": pick if via == "file" else None,
+                         "file_style": "lf", "mode": mode, "list_flag_both": False, "json": js}
+                    yield self.mk_case(m, "cli-odd-names")
         # option values that are empty or blank: they are values like any other, not requests for the default
         body = ("keep();\n" + self.DEF["ds"] + "time-limited to='2000-01-01 00:00:00'" + self.DEF["de"] + "\nold();\n" + self.DEF["ds"] + "/time-limited" + self.DEF["de"] + "\n"
                 + self.DEF["ds"] + "removal-marker name='a'" + self.DEF["de"] + "\ngone();\n" + self.DEF["ds"] + "/removal-marker" + self.DEF["de"] + "\n"
